@@ -78,23 +78,25 @@ class TokenRevocation(Endpoint):
         grant = _session_info["grant"]
         _token = grant.get_token(request_token)
 
+        # What applies to this client. Must not stick to the endpoint, the next request may
+        # come from another client.
         try:
-            self.token_types_supported = _context.cdb[client_id]["token_revocation"][
+            _token_types_supported = _context.cdb[client_id]["token_revocation"][
                 "token_types_supported"
             ]
         except Exception:
-            self.token_types_supported = self.token_revocation_kwargs.get(
+            _token_types_supported = self.token_revocation_kwargs.get(
                 "token_types_supported", self.token_types_supported
             )
 
         try:
-            self.policy = _context.cdb[client_id]["token_revocation"]["policy"]
+            _policy = _context.cdb[client_id]["token_revocation"]["policy"]
         except Exception:
-            self.policy = self.token_revocation_kwargs.get(
+            _policy = self.token_revocation_kwargs.get(
                 "policy", {"": {"function": validate_token_revocation_policy}}
             )
 
-        if _token.token_class not in self.token_types_supported:
+        if _token.token_class not in _token_types_supported:
             desc = (
                 "The authorization server does not support the revocation of "
                 "the presented token type. That is, the client tried to revoke an access "
@@ -102,18 +104,18 @@ class TokenRevocation(Endpoint):
             )
             return self.error_cls(error="unsupported_token_type", error_description=desc)
 
-        return self._revoke(_revoke_request, _session_info)
+        return self._revoke(_revoke_request, _session_info, _policy)
 
-    def _revoke(self, request, session_info):
+    def _revoke(self, request, session_info, policy):
         _context = self.upstream_get("endpoint_context")
         _mngr = _context.session_manager
         _token = _mngr.find_token(session_info["branch_id"], request["token"])
 
         _cls = _token.token_class
-        if _cls not in self.policy:
+        if _cls not in policy:
             _cls = ""
 
-        temp_policy = self.policy[_cls]
+        temp_policy = policy[_cls]
         function = temp_policy["function"]
         kwargs = temp_policy.get("kwargs", {})
 
